@@ -141,10 +141,40 @@ fn exec_bigcall(case: &Value) -> Value {
         let z: Vec<i64> = fb.depth_buf.data().iter().map(|z| z.to_bits() as i64 & 0x7FFF_FFFF).collect();
         planes.push(json!([fb.color_buf.data(), z]));
     }
+    // the statement's painter clause on a call of that size: three large triangles at depths apart from each other
+    // (and from the padding's), the nearest submitted first, the middle one half-way through the padding, the farthest
+    // last.  (e) depth-tested, unsorted; (f) depth test off, sorted back to front: the same colour plane.
+    let base = verts.len();
+    let shapes: [[(f32, f32); 3]; 3] = [[(-1.0, -1.0), (0.6, -1.0), (-1.0, 0.8)], [(1.0, 1.0), (-0.8, 0.9), (0.7, -0.9)], [(-1.0, -1.0), (1.0, -1.0), (0.0, 1.0)]];
+    for (t, sh) in shapes.iter().enumerate() {
+        let w = [1.01f32, 1.7, 2.9][t];
+        for (x, y) in sh {
+            verts.push(vertex([x * w, y * w, 2.0 * w - 3.0, w].into(), (10 * (t + 1)) as f32));
+        }
+    }
+    let pad: Vec<Tri<usize>> = (nreal..nreal + npad).map(|t| Tri([3 * t, 3 * t + 1, 3 * t + 2])).collect();
+    let mut spread: Vec<Tri<usize>> = vec![Tri([base, base + 1, base + 2])];
+    spread.extend_from_slice(&pad[..npad / 2]);
+    spread.push(Tri([base + 3, base + 4, base + 5]));
+    spread.extend_from_slice(&pad[npad / 2..]);
+    spread.push(Tri([base + 6, base + 7, base + 8]));
+    let mut pp = vec![];
+    for (test, sort) in [(1i64, 0i64), (0, 2)] {
+        let mut fb = Framebuf {
+            color_buf: Buf2::new_from((bw, bh), std::iter::repeat(C0)),
+            depth_buf: Buf2::new_from((bw, bh), std::iter::repeat(0.0f32)),
+        };
+        let ctx = mk_ctx(&json!({"cull": 0, "sort": sort, "test": test, "cw": 1, "dw": 1}), Stats::new());
+        if guard(|| render(&spread, &verts, &shader(false), (), to_screen, &mut fb, &ctx)).is_none() {
+            panic = 1;
+        }
+        pp.push(json!(fb.color_buf.data()));
+    }
     let mut e = case.clone();
     let o = e.as_object_mut().unwrap();
     o.insert("panic".into(), json!(panic));
     o.insert("planes".into(), json!(planes));
+    o.insert("pp".into(), json!(pp));
     e
 }
 
